@@ -73,6 +73,7 @@ class Program:
         self.order = []        # target names, dependencies first
         self.dofiles = {}      # do path -> version (existing scripts, specific and default)
         self.user = {}         # name -> bytes: target names currently owned by the user
+        self.watch_link = set()  # watched paths that are symbolic links (dangling while "absent")
 
     # ---- description
     def spec(self):
@@ -214,6 +215,19 @@ class Program:
     def write_watch(self, top, name, clock):
         p = os.path.join(top, name)
         b = self.watch_bytes(name)
+        if name in self.watch_link:
+            # the watched path is a symbolic link; "absent" = the link dangles
+            tgt = p + '.linktarget'
+            if not os.path.islink(p):
+                if os.path.lexists(p):
+                    os.unlink(p)
+                os.symlink(os.path.basename(tgt), p)
+            if b is None:
+                if os.path.lexists(tgt):
+                    os.unlink(tgt)
+            else:
+                write_file(tgt, b, clock)
+            return
         if b is None:
             if os.path.lexists(p):
                 os.unlink(p)
